@@ -41,6 +41,7 @@ type Fetch struct {
 	Indices []uint64   `json:"indices"`
 	Version int        `json:"version"` // table version served
 	Err     bool       `json:"err"`
+	CtxDone bool       `json:"ctx_done,omitempty"` // failed because the caller's context was done
 	Att     []AttDuty  `json:"att,omitempty"`
 	Prop    []PropDuty `json:"prop,omitempty"`
 	Sync    []SyncDuty `json:"sync,omitempty"`
